@@ -59,3 +59,16 @@ static parsec_key_t ref_make_key(const REF_TP_T *tp, int c, const parsec_assignm
     if (c == 0) return __jdf2c_make_key_P((const parsec_taskpool_t *)tp, l);
     (void)c; return __jdf2c_make_key_Q((const parsec_taskpool_t *)tp, l);
 }
+
+/* IN side, data flows only */
+static int ref_pred(const int *g, int c, const int *p, int f, int *pc, int *pp, int *pf)
+{ (void)f; if (c == REF_CLS_Q) { *pc = REF_CLS_P; pp[0] = p[0]; pp[1] = g[0] - p[0]; pp[2] = p[1] + p[0]; *pf = P_A; return 1; } return 0; }
+static int ref_is_ctl(int c, int f) { (void)c; (void)f; return 0; }
+
+/* key of instance (c, p) through the real generated make_key */
+static parsec_key_t ref_key_of(const REF_TP_T *tp, const int *g, int c, const int *p)
+{
+    if (c == 0) { __parsec_derived_P_parsec_assignment_t a = { 0 }; ref_P_fill(&a, g, p); return __jdf2c_make_key_P((const parsec_taskpool_t *)tp, (const parsec_assignment_t *)&a); }
+    if (c == 1) { __parsec_derived_Q_parsec_assignment_t a = { 0 }; ref_Q_fill(&a, g, p); return __jdf2c_make_key_Q((const parsec_taskpool_t *)tp, (const parsec_assignment_t *)&a); }
+    return 0;
+}
